@@ -3,6 +3,7 @@ package props
 import (
 	"encoding/binary"
 	"encoding/json"
+	"errors"
 	"fmt"
 	"os"
 	"path/filepath"
@@ -12,6 +13,7 @@ import (
 	"time"
 
 	bolt "go.etcd.io/bbolt"
+	berrors "go.etcd.io/bbolt/errors"
 	"go.etcd.io/bbolt/xverif/dec"
 	"go.etcd.io/bbolt/xverif/sim"
 	"go.etcd.io/bbolt/xverif/work"
@@ -38,6 +40,9 @@ type batchExtra struct {
 	// I/O faults injected while the callers run (armed-call indices): a batch whose commit fails must
 	// report the failure to every caller in it and commit none of their effects
 	Faults []sim.FaultPlan `json:"faults,omitempty"`
+	// C03 arm: a task calls DB.Close after CloseAfter yields while Batch calls are queued, running or arriving
+	Closer     bool `json:"closer,omitempty"`
+	CloseAfter int  `json:"close_after,omitempty"`
 }
 
 // injectedErr reports whether err stems from an injected I/O fault (bbolt wraps some of them with %s).
@@ -66,7 +71,11 @@ func (bs batchsim) Gen(prop, tier string, ts *sim.Tapes) *Case {
 		ex.Callers = append(ex.Callers, calls)
 	}
 	ex.Updaters = t.Pick(3, 1, 1)
-	if ft := ts.Get("fault"); ft.Chance(1, 3) {
+	if prop == "C03" {
+		ex.Closer = t.Chance(2, 3)
+		ex.CloseAfter = t.Intn(40)
+	}
+	if ft := ts.Get("fault"); prop != "C03" && ft.Chance(1, 3) {
 		nf := 1 + ft.Intn(2)
 		for i := 0; i < nf; i++ {
 			ex.Faults = append(ex.Faults, sim.FaultPlan{K: ft.Intn(10 * n), Kind: []string{"eio", "short", "enospc"}[ft.Intn(3)]})
@@ -160,9 +169,11 @@ func (bs batchsim) runInBubble(c *Case, dir string, out *Outcome) {
 	var viol []*work.Violation
 	fail := func(class, f string, a ...any) {
 		if len(viol) < 10 {
-			viol = append(viol, &work.Violation{Prop: "C16", Class: class, Msg: fmt.Sprintf(f, a...)})
+			viol = append(viol, &work.Violation{Prop: c.Prop, Class: class, Msg: fmt.Sprintf(f, a...)})
 		}
 	}
+	closeInvoked, closed := false, false
+	notOpenOK := func(err error) bool { return closeInvoked && errors.Is(err, berrors.ErrDatabaseNotOpen) }
 	if disk != nil {
 		disk.Arm(true)
 	}
@@ -244,11 +255,34 @@ func (bs batchsim) runInBubble(c *Case, dir string, out *Outcome) {
 				})
 				if err != nil && disk != nil && disk.FiredN > 0 && injectedErr(err) {
 					out.probe("updater-commit-failed-by-injected-fault", 1)
+				} else if notOpenOK(err) {
+					out.probe("update-after-close", 1)
 				} else if err != nil {
 					fail("updater-error", "plain Update failed: %v", err)
 				} else {
 					updaterCommits++
 				}
+			}
+		})
+	}
+	if ex.Closer {
+		s.Go("closer", func(t *sim.Task) {
+			for i := 0; i < ex.CloseAfter && !s.Draining; i++ {
+				t.Pause("closer.pause")
+			}
+			pendingAtClose := 0
+			for _, r := range results {
+				if !r.returned {
+					pendingAtClose++
+				}
+			}
+			closeInvoked = true
+			if err := db.Close(); err != nil {
+				fail("close-error", "Close: %v", err)
+			}
+			closed = true
+			if pendingAtClose > 0 {
+				out.probe("close-with-batch-calls-pending", 1)
 			}
 		})
 	}
@@ -292,6 +326,15 @@ func (bs batchsim) runInBubble(c *Case, dir string, out *Outcome) {
 	// final committed state
 	counters := map[int]uint64{}
 	tokens := map[string]bool{}
+	if closed {
+		e.DB = nil
+		if err := e.Open(e.Opts); err != nil {
+			fail("reopen-error", "Open after Close: %v", err)
+			out.Viol = viol
+			return
+		}
+		db = e.DB
+	}
 	_ = db.View(func(tx *bolt.Tx) error {
 		return tx.Bucket([]byte("b")).ForEach(func(k, v []byte) error {
 			ks := string(k)
@@ -332,7 +375,10 @@ func (bs batchsim) runInBubble(c *Case, dir string, out *Outcome) {
 				fail("effect-of-failed-call", "call %d/%d returned %v but its token is committed", r.caller, r.k, r.err)
 			}
 			own := r.err == r.ownErr || strings.Contains(r.err.Error(), r.ownPanic)
-			if !own && disk != nil && disk.FiredN > 0 && injectedErr(r.err) {
+			if !own && notOpenOK(r.err) {
+				// the database was closed under the call: it is told so (and, checked above, nothing of it is committed)
+				out.probe("batch-call-refused-after-close", 1)
+			} else if !own && disk != nil && disk.FiredN > 0 && injectedErr(r.err) {
 				// the commit of the batch this call was in failed: every caller of that batch is told so and
 				// (checked above) none of its effects are committed
 				out.probe("batch-call-failed-by-injected-commit-failure", 1)
